@@ -467,10 +467,10 @@ class MolGraph:
             mapping.get(atom, atom): attrs
             for atom, attrs in self._atom_attrs.items()
         }
-        neighbors = {
+        neighbors = defaultdict(set, {
             mapping.get(atom, atom): {mapping.get(n, n) for n in neighbors}
             for atom, neighbors in self._neighbors.items()
-        }
+        })
 
         bond_attrs = {
             Bond({mapping.get(atom, atom) for atom in bond}): attrs
@@ -532,10 +532,10 @@ class MolGraph:
             for bond, attrs in self._bond_attrs.items()
             if new_atoms.issuperset(bond)
         }
-        neighbors = {
-            atom: {n for n in self._neighbors[atom] if n in new_atoms}
+        neighbors = defaultdict(set, {
+            atom: {n for n in self._neighbors.get(atom, ()) if n in new_atoms}
             for atom in new_atoms
-        }
+        })
         new_graph = self.__class__()
         new_graph._atom_attrs = atom_attrs
         new_graph._neighbors = neighbors
